@@ -22,6 +22,7 @@ func init() {
 			"(R4) writeBufferPending and writeBufferAvailable have the same capacity, so handing a taken buffer to the writer never blocks; " +
 			"(R5, token conservation) on every path of Write that returns a deadline error after the send-window token was taken, the token is put back. " +
 			"(R6) the close and close-write messages are queued (blocking select with the multiplexer-closed escape) whenever the caller requested them, under no further condition, and Close/CloseWrite always request them — a peer blocked in Read learns of the closure only through that message; " +
+			"(R7, sticky expiry) the deadline timers are one-shot: every return of os.ErrDeadlineExceeded from Read/Write is taken under the stream's expired flag or after setting it on all ways to that return, so a later call still sees the expiry after the timer's tick has been consumed; " +
 			"Not decided: liveness under actual schedules, fairness, timer behaviour.",
 		Assumptions: []string{"channel semantics of the Go memory model; a deferred send on an empty capacity-1 channel does not block"},
 		Run:         runC25,
@@ -44,6 +45,7 @@ var c25Standalone = []c25Exempt{
 
 func runC25(c *eng.Ctx) {
 	c25CloseMessages(c)
+	c25StickyExpiry(c)
 	apis := []string{"Stream.Read", "Stream.Write", "Stream.closeWrite", "Stream.close", "Multiplexer.OpenStream", "Multiplexer.AcceptStream", "Multiplexer.acceptOneStream"}
 	exempt := map[string]c25Exempt{}
 	for _, e := range c25Standalone {
